@@ -14,8 +14,17 @@ pub fn run(rec: &mut Recorder, w: &mut World, tier: &str, seed: u64) {
     for k in ks.iter().chain(spiced.iter()) {
         let reqs = requests(k);
         let reqf = enc_reqs(&reqs);
+        let k_plain = k;
+        let (reqs_plain, reqf_plain) = (reqs, reqf);
+        // on the cached runs of the plain-name kinds two subjects are called "1" and "true": the typed requests 1 / true and
+        // the strings spelled the same way then differ in their decisions
+        let k_typed = if PLAIN_KINDS.contains(&k.name) { rename_kind(k, &[("alice".to_string(), "1".to_string()), ("bob".to_string(), "true".to_string())], false) } else { k.clone() };
+        let reqs_typed = requests(&k_typed);
+        let reqf_typed = enc_reqs(&reqs_typed);
         for (ename, eff) in EFFECTS.iter() {
             for it in 0..per {
+                let typed = it % 4 == 3;
+                let (k, reqs, reqf) = if typed { (&k_typed, &reqs_typed, &reqf_typed) } else { (k_plain, &reqs_plain, &reqf_plain) };
                 let sfx = *rng.pick(&["2", "3"]);
                 let with_eft = *ename != "allow-override" || rng.chance(1, 2);
                 let spelled = rng.chance(1, 2); // e2 written with p2.eft instead of p.eft
@@ -35,8 +44,11 @@ pub fn run(rec: &mut Recorder, w: &mut World, tier: &str, seed: u64) {
                 if rng.chance(1, 8) && !rules.is_empty() { let i = rng.below(rules.len()); if rng.chance(1, 2) { rules[i].pop(); } else { rules[i].push("extra".to_string()); } rec.count("policy:malformed-rule"); }
                 let links = gen_links(&mut rng, k);
                 rec.begin();
+                // every fourth comparison on a CachedEnforcer (both sides): what a caller observes must not depend on it
+                let cached = it % 4 == 3;
+                if cached { rec.exec(w, "e.cached\ttrue"); rec.count("enforcer:cached"); }
                 // plain: rules under p
-                if new_enforcer(rec, w, &m, "memory", &lines_of("p", &rules, &k.g, &links), "", false) != "ok" { rec.count("new:failed"); continue; }
+                if new_enforcer(rec, w, &m, "memory", &lines_of("p", &rules, &k.g, &links), "", false) != "ok" { rec.count("new:failed"); if cached { rec.exec(w, "e.cached\tfalse"); } continue; }
                 let plain = rec.exec(w, &format!("e.enfs\t{}", reqf));
                 // context: the same rules under p<k> (rule-in-policy texts name the renamed request tokens)
                 let ctx_rules: Vec<Vec<String>> = if k.name == "eval" {
@@ -48,6 +60,7 @@ pub fn run(rec: &mut Recorder, w: &mut World, tier: &str, seed: u64) {
                 }
                 new_enforcer(rec, w, &m, "memory", &lines_of(&format!("p{}", sfx), &ctx_rules, &k.g, &links), "", false);
                 let ctx = rec.exec(w, &format!("e.enfcs\t{}\t{}", sfx, reqf));
+                if cached { rec.exec(w, "e.cached\tfalse"); }
                 if plain != ctx {
                     let i = plain.bytes().zip(ctx.bytes()).position(|(x, y)| x != y).unwrap_or(0);
                     rec.fail("context-differs", format!("[{} {} suffix {} e-spelled-suffixed={}] request {:?}: plain {} context {} (rules {:?})", k.name, ename, sfx, spelled, reqs[i], &plain[i..i + 1], &ctx[i..i + 1], rules));
